@@ -78,6 +78,15 @@ def callbacksOK (m : MSt) (o : Obs) : List String :=
     got.all (fun v => !(o.recvd.getD (k - 1) []).contains v)
   (if okF then [] else ["C15.on_filtered_exactly_once"]) ++ (if okT then [] else ["C15.on_timeout_own_deadline_once"])
 
+/-- C15: no delivery outlives its own timeout.  Evaluated right after a `sleep` (longer than the short
+    timeout): what is still pending can only be addressed to open subscribers with the long timeout, whose
+    buffer is full — at most one pending delivery per accepted message they have neither received nor buffered. -/
+def timeoutsFire (m : MSt) (o : Obs) : List String :=
+  let room := ((zipIdx1 m.subs).map fun (k, si) =>
+    if si.closedAt.isSome || si.short then 0
+    else (accepted m si).length - ((o.recvd.getD (k - 1) []).length + o.bufs.getD (k - 1) 0)).foldl (· + ·) 0
+  if o.pend + o.other ≤ room then [] else ["C15.trichotomy_timeout_due"]
+
 /-- C15: a subscriber's buffer absorbs up to its capacity with nobody receiving. -/
 def buffersOK (m : MSt) (o : Obs) : List String :=
   if (zipIdx1 m.subs).all (fun (k, si) => o.bufs.getD (k - 1) 0 ≤ si.cap) then [] else ["C15.buffer_capacity"]
